@@ -280,7 +280,7 @@ def validate_obs(run, module, obs, label='obs', constants=None, timeout=3000):
     return verdicts
 
 
-def validate_hist(run, traces, label='hist', constants=None, timeout=3000, engine='hist'):
+def validate_hist(run, traces, label='hist', constants=None, timeout=3000, engine='hist', parsers=('p1', 'p2', 'p3')):
     """traces: list of {'tid', 'ev', 'case'}; validated by Trace_Hist.  Book-keeps and reports."""
     if not traces:
         return
@@ -291,7 +291,7 @@ def validate_hist(run, traces, label='hist', constants=None, timeout=3000, engin
     cfg = os.path.join(scratch(), 'hist_%s.cfg' % label)
     with open(cfg, 'w') as f:
         f.write('SPECIFICATION HSpec\nINVARIANT Verdict\nCHECK_DEADLOCK FALSE\nCONSTANTS\n')
-        f.write('  Parsers = {"p1", "p2", "p3"}\n')
+        f.write('  Parsers = {%s}\n' % ', '.join('"%s"' % x for x in parsers))
         for k, v in (constants or {}).items():
             f.write('  %s = %s\n' % (k, v))
     r = run_tlc('Trace_Hist.tla', cfg, env={'TRACE_FILE': tf}, timeout=timeout)
